@@ -207,7 +207,8 @@ class Sdk:
         text, snippets = model.render(extra_items)
         self.text = text
         self.gen = mm.generate_python_sdk(text, scratch, snippets=snippets)
-        self.ok = self.gen["rc"] == 0 and not self.gen.get("import_errors")
+        self.accepted = self.gen["rc"] == 0  # the front end and the generator took the meta-model
+        self.ok = self.accepted and not self.gen.get("import_errors")
         self.mods = self.gen["mods"]
         if not self.ok:
             return
